@@ -16,6 +16,7 @@ from urllib.parse import urlparse
 from ..codec import CodecRegistry
 from ..store import Store, current_timestamp
 from ..structures import CodecProtocol, ProtocolRef, FileCodecProtocol, DDSException
+from ..structures import DDSErrorCode
 from ..structures import PyHash, DDSPath, GenericLocation, SupportedType as ST
 from ..structures_utils import SupportedTypeUtils as STU
 
@@ -231,6 +232,7 @@ class DBFSStore(Store):
             return
         # This is a brute force approach that copies all the data and writes extra meta data.
         for (dds_p, key) in paths.items():
+            self._check_path(dds_p)
             # Look for the redirection file associated to this file
             # The paths are /_dds_meta/path
             redir_p = Path("_dds_meta/").joinpath("./" + dds_p)
@@ -292,6 +294,7 @@ class DBFSStore(Store):
         res = OrderedDict()
         # This is a brute force approach that copies all the data and writes extra meta data.
         for dds_p in paths:
+            self._check_path(dds_p)
             # TODO: this is the same code as sync_path, factorize
             # Look for the redirection file associated to this file
             # The paths are /_dds_meta/path
@@ -338,6 +341,22 @@ class DBFSStore(Store):
 
     def _head(self, p: DBFSURI) -> str:
         return self._dbutils.fs.head(str(p))  # type:ignore
+
+    def _check_path(self, dds_p: DDSPath) -> None:
+        """
+        Every path has a location of its own under the data directory: '.' and '..' segments would make two
+        paths share a location (or leave the data directory), and the directory _dds_meta holds the redirections.
+        """
+        segments = [s for s in dds_p.split("/") if s]
+        if (
+            not segments
+            or any(s in (".", "..") for s in segments)
+            or segments[0] == "_dds_meta"
+        ):
+            raise DDSException(
+                f"The path {dds_p} cannot be mapped to a location of its own inside the data directory {self._data_dir}",
+                DDSErrorCode.STORE_PATH_NOT_SUPPORTED,
+            )
 
     def _put(self, p: DBFSURI, blob: str) -> Any:
         return self._dbutils.fs.put(str(p), blob, overwrite=True)
